@@ -87,7 +87,7 @@ impl Em {
 fn pred_ok(p: &Pred, ty: &Ty, uni: &[Val]) -> bool {
     match p {
         Pred::Never | Pred::Always => true,
-        Pred::Eq(k) | Pred::Ne(k) => *k < uni.len(),
+        Pred::Eq(k) | Pred::Ne(k) | Pred::EqViaGet(k) | Pred::NeViaFilter(k) | Pred::NeViaGet(k) => *k < uni.len(),
         Pred::Lt(k) | Pred::Gt(k) => *k < uni.len() && *ty == Ty::Int,
         Pred::FstEq(k) => *k < uni.len() && matches!(ty, Ty::Tup(_)),
     }
@@ -96,7 +96,8 @@ fn pred_eval(p: &Pred, x: &Val, uni: &[Val]) -> bool {
     match p {
         Pred::Never => false,
         Pred::Always => true,
-        Pred::Eq(k) => *x == uni[*k],
+        Pred::Eq(k) | Pred::EqViaGet(k) => *x == uni[*k],
+        Pred::NeViaFilter(k) | Pred::NeViaGet(k) => *x != uni[*k],
         Pred::Ne(k) => *x != uni[*k],
         Pred::Lt(k) => x < &uni[*k],
         Pred::Gt(k) => x > &uni[*k],
@@ -111,6 +112,9 @@ fn pred_body(p: &Pred, uni: &[Val]) -> String {
         Pred::Never => "false".into(),
         Pred::Always => "true".into(),
         Pred::Eq(k) => format!("x == {}", uni[*k].lit_atom()),
+        Pred::EqViaGet(k) => format!("list.get([{}], 0) == Maybe.Just x", uni[*k].lit()),
+        Pred::NeViaGet(k) => format!("list.get([{}], 0) != Maybe.Just x", uni[*k].lit()),
+        Pred::NeViaFilter(k) => format!("filter([{}], pu y -> bool\n        y == x\n    end) == []", uni[*k].lit()),
         Pred::Ne(k) => format!("x != {}", uni[*k].lit_atom()),
         Pred::Lt(k) => format!("x < {}", uni[*k].lit_atom()),
         Pred::Gt(k) => format!("x > {}", uni[*k].lit_atom()),
